@@ -73,6 +73,21 @@ void h_transpose3(void){
   OBS(out);
   REACHED();
 }
+/* explicit axes with NEGATIVE entries (each entry in [-3,2], distinct after normalisation): np.transpose(a, (-1,0,1)) */
+void h_transpose3_neg(void){
+  u64 shape[3], idx[4], os[4] = {0}, od = 0, src[3], ex[4] = {0}, n[3]; u32 data[CELLS], ax[3], out = 0;
+  in_shape(shape, 3); in_data(data, MAXE*MAXE*MAXE); in_perm3(ax, 1);
+  for (int i = 0; i < 3; i++) n[i] = norm(ax[i], 3);
+  ASSUME(n[0] != n[1] && n[0] != n[2] && n[1] != n[2]);
+  for (int i = 0; i < 3; i++) ex[i] = shape[n[i]];
+  in_index(idx, ex, 3);
+  int r = k_transpose3(shape, data, ax, idx, 3, os, &od, &out);
+  ASSERT(r == 1 && od == 3, "permutation (with negative entries) accepted");
+  for (int i = 0; i < 3; i++){ ASSERT(os[i] == ex[i], "shape[i] == src_shape[axes[i]]"); src[n[i]] = idx[i]; }
+  ASSERT(out == data[horner(src, shape, 3)], "element == NumPy transpose element");
+  OBS(out);
+  REACHED();
+}
 void h_transpose3_default(void){
   u64 shape[3], idx[4], os[4] = {0}, od = 0, src[3], ex[4] = {0}; u32 data[CELLS], out = 0;
   in_shape(shape, 3); in_data(data, MAXE*MAXE*MAXE);
